@@ -158,7 +158,10 @@ impl<'a> Ctx<'a> {
                 match self.rng.below(9) {
                     0 => Card::call_function("std.min", vec![t]),
                     1 => Card::call_function("std.max", vec![t]),
-                    2 => Card::call_function("std.sorted", vec![t]),
+                    // (not `std.sorted`: the table may hold values of mixed kinds, whose comparison is
+                    // not a total preorder - the result then depends on the sort algorithm; sorting is
+                    // exercised on controlled tables by the std engine and below with integer keys)
+                    2 => Card::call_function("std.to_array", vec![t]),
                     3 => Card::call_function("std.to_array", vec![t]),
                     4 | 5 => {
                         // key function (key, val) -> some value computed from val
@@ -172,6 +175,15 @@ impl<'a> Ctx<'a> {
                             cards: vec![Card::return_card(body)],
                         })));
                         let name = *self.rng.pick(&["std.min_by_key", "std.max_by_key", "std.sorted_by_key"]);
+                        // a sort needs a consistent order: integer keys (sum2 coerces both operands)
+                        let f = if name == "std.sorted_by_key" {
+                            c(CardBody::Closure(Box::new(Function {
+                                arguments: vec!["key".into(), "val".into()],
+                                cards: vec![Card::return_card(Card::call_native("sum2", vec![read(&"val".to_string()), read(&"key".to_string())]))],
+                            })))
+                        } else {
+                            f
+                        };
                         // reversed binding: the *first* supplied argument is the last declared parameter
                         Card::call_function(name, vec![f, t])
                     }
@@ -213,7 +225,11 @@ impl<'a> Ctx<'a> {
                 if body_val == "val" && !tv.is_empty() {
                     let t = read(self.rng.pick(&tv));
                     let name = *self.rng.pick(&["__sort", "__min", "__max"]);
-                    Card::dynamic_call(c(CardBody::NativeFunction(name.into())), vec![t, looping(vec!["key", "val"], "val", n)])
+                    // sorting needs a consistent order: the table may hold values of mixed kinds, for
+                    // which the comparison is not a total preorder and the result depends on the sort
+                    // algorithm (outside the property) - the sort key is the (integer) loop counter
+                    let ret = if name == "__sort" { "cnt" } else { "val" };
+                    Card::dynamic_call(c(CardBody::NativeFunction(name.into())), vec![t, looping(vec!["key", "val"], ret, n)])
                 } else {
                     let arg = self.scalar();
                     // `pcall` swallows the callee's error (also a Timeout: the budget stays exhausted)
